@@ -53,6 +53,11 @@ func (s *zzSink) Write(p []byte) (int, error) {
 type zzInner struct{}
 
 func (zzInner) ServeHTTP(w http.ResponseWriter, r *http.Request) (int, error) {
+	if verifrt.Bool("rewrites-path") {
+		// an inner rewrite directive changes the path the rest of the chain sees; scope and
+		// exceptions of the log directive are about the path the client requested
+		r.URL.Path = []string{"/a/a", "/zz"}[verifrt.Choose("rewritten", 2)]
+	}
 	if verifrt.Bool("writes") {
 		if verifrt.Bool("explicit-status") {
 			w.WriteHeader([]int{200, 204, 404, 500}[verifrt.Choose("status", 4)])
